@@ -3,7 +3,7 @@ from __future__ import annotations
 
 import ast
 
-from sa.loader import norm, norm1, walk_shallow, call_name, AnalysisError
+from sa.loader import recv, norm, norm1, walk_shallow, call_name, AnalysisError
 from sa.rulekit import nodes_where, node_calls, node_roots
 
 SIMULATE = 'simulator:Circuit._simulate'
@@ -48,7 +48,7 @@ class SimLoop:
                            if self.head.id in g.reachable_from(g.nodes[i])} | {self.head.id}
         # --- queue
         self.get_nodes = nodes_where(g, lambda n: any(call_name(c) in ('get', 'get_nowait')
-                                                      and 'queue' in norm(c.func.value).lower()
+                                                      and 'queue' in recv(c).lower()
                                                       for c in node_calls(n)))
         self.await_nodes = nodes_where(g, lambda n: any(isinstance(x, ast.Await) for r in node_roots(n)
                                                         for x in walk_shallow(r)))
@@ -93,7 +93,7 @@ class SimLoop:
             for r in node_roots(n):
                 for x in walk_shallow(r):
                     if isinstance(x, ast.Await) and isinstance(x.value, ast.Call) and \
-                            call_name(x.value) == 'get' and self.is_queue(x.value.func.value):
+                            call_name(x.value) == 'get' and isinstance(x.value.func, ast.Attribute) and self.is_queue(x.value.func.value):
                         res.append(n)
         return res
 
